@@ -81,12 +81,18 @@ CLAIMED.update({
          "budget spec clauses (first attempt undelayed, never more than max_retry_delay for any jitter draw, RuntimeError "
          "iff exhausted); Component._can_reconnect and the transport_check closure over an unbounded family of transport "
          "records (loop invariants): next transport in cyclic order that may reconnect, start() result rejected iff none "
-         "can; _connect_once advances the attempt counter exactly once, on_join restarts the budget.",
+         "can; _connect_once advances the attempt counter exactly once, on_join restarts the budget."
+         "  One connection attempt on Twisted (Component._connect_transport and its failure closure): the protocol "
+         "factory handed to the endpoint is built in this attempt from this attempt's session factory (whose closure owns "
+         "this attempt's completion future), never one kept from an earlier attempt; a refused connection counts one "
+         "failure and completes exactly this attempt's future.",
     note="Trusted: z3, pyvc, txaio as_future/add_callbacks/sleep (the asynchronous composition of the reconnect loop is "
          "assumed, not proved), itertools.cycle as k mod n, random.normalvariate arbitrary, floats as reals. Not covered: "
-         "exactly-once completion of the start() future across callbacks (history property over txaio), listener bubbling "
-         "(ObservableMixin.fire), stop() racing with a scheduled transport_check.",
-    technique="contract-based deductive verification: AST->VC, symbolic record heap, loop invariants, z3"),
+         "exactly-once completion of the start() future across callbacks (history property over txaio: decided only by the "
+         "history replay on the real Twisted Component, bounded), the asyncio _connect_transport (endpoint dictionaries), "
+         "listener bubbling (ObservableMixin.fire), stop() racing with a scheduled transport_check.",
+    technique="contract-based deductive verification: AST->VC, symbolic record heap, loop invariants, z3; connection "
+              "histories replayed on the real Twisted Component"),
  "C19": dict(category="proof",
     text="compute_totp/check_totp are proved equal to an RFC 4226/6238 spec (dynamic truncation arithmetic, step counter, "
          "window -1..+1) over uninterpreted HMAC-SHA1/base32; compute_wcs, derive_key, pbkdf2, WAMP-CRA on_challenge "
@@ -94,9 +100,12 @@ CLAIMED.update({
          "AuthScram.on_welcome returns None iff the alleged server signature equals HMAC(HMAC(SaltedPassword,'Server Key'), "
          "AuthMessage); util.xor is byte-wise XOR with a length check (loop invariant).",
     note="The primitives (HMAC, SHA, PBKDF2, Argon2, Ed25519, base32/64) are uninterpreted: their bindings are exercised by "
-         "the pinned RFC test vectors, their cryptographic strength is an assumption. Not covered: AuthScram.on_challenge "
-         "(client proof string formatting), cryptosign signing chain.",
-    technique="contract-based deductive verification over uninterpreted cryptographic primitives, z3"),
+         "the pinned RFC test vectors, their cryptographic strength is an assumption. AuthScram.on_challenge (auth-message "
+         "formatting, client proof) is outside the verifier's reach: a *bounded* stand-in runs on every check -- the real "
+         "functions against reference verifiers written from RFC 5802 / 6238 / 2898 with the standard library (685 cases, "
+         "never counted as proved). Not covered: Argon2id SCRAM, the cryptosign signing chain.",
+    technique="contract-based deductive verification over uninterpreted cryptographic primitives, z3; bounded reference "
+              "harness (stdlib verifiers) for SCRAM"),
 })
 
 CLAIMED.update({
@@ -237,7 +246,7 @@ CLAIMED.update({
          "with real NaCl keys (round trip, wrong key, tampering).",
     note="Trusted: z3, pyvc, NaCl Box (authenticated encryption: decrypt raises or opens; paired boxes invert each other), "
          "JSON round trip, pytrie longest-prefix lookup. Not covered: INVOCATION / RESULT / YIELD arms, publish()/call() "
-         "encode paths, key management.",
+         "encode paths; key management (set_key / rotation) is covered only by the replay harness' provisioning histories.",
     technique="contract-based deductive verification over uninterpreted cryptographic primitives, ghost decode accounting, z3"),
 })
 
@@ -278,10 +287,16 @@ CLAIMED.update({
     note="Trusted: z3, pyvc, SHA-1 / base64 uninterpreted, parseHttpHeader / _url_to_origin / _is_same_origin / urllib / "
          "hyperlink by assumed contracts, text functions (strip, lower, split, format, comprehensions over split results) "
          "as over-approximations with only length facts -- this proves necessary conditions of acceptance and "
-         "exception-freedom, not that every valid peer is accepted. Not covered (level 'other'): sufficiency, the origin "
-         "policy functions themselves, succeedHandshake (response construction), request construction and URL parsing, "
+         "exception-freedom, not that every valid peer is accepted.  The origin policy functions are units of their own: "
+         "_url_to_origin keeps exactly the scheme / host / port of the Origin URL (an explicit port, 0 included, is never "
+         "replaced by the scheme's default; file: and 'null' give the null origin) over urllib's urlsplit as an assumed "
+         "primitive; _is_same_origin accepts exactly when some configured pattern matches the whole text "
+         "scheme://host:port (loop invariant; pattern.match an uninterpreted predicate) and never the null origin.  "
+         "Not covered (level 'other'): sufficiency, wildcards2patterns (regex text built with str.replace chains), "
+         "succeedHandshake (response construction), request construction and URL parsing, "
          "extension headers (C12), X-Forwarded-For handling, the Flash policy branch, library-to-library interoperability.",
-    technique="contract-based deductive verification: AST->VC with over-approximated text functions, uninterpreted digest, z3"),
+    technique="contract-based deductive verification: AST->VC with over-approximated text functions, uninterpreted digest, z3; "
+              "origin counterexamples replayed against urllib / re.fullmatch"),
 })
 
 CLAIMED.update({
